@@ -277,6 +277,12 @@ def hJoin : List String → String → Res
     some (showOpt showNats (bmJoin vs w), if vs.length > 400 then "big" else vb (joinSpecOK vs w impl))
   | _, _ => none
 
+/-- `joinprobe n w seed`: the harness evaluates the C14 clauses on the real code at a size the driver cannot
+    build; the model satisfies them for every size by `C14_join`, i.e. the expected answer is "ok" -/
+def hJoinProbe : List String → String → Res
+  | [_n, _w, _seed], impl => some ("ok", verdictEq "ok" impl)
+  | _, _ => none
+
 def hGetw : List String → String → Res
   | [ws, i, w], impl => do
     let ws ← pNatList ws; let i ← pNat i; let w ← pNat w
